@@ -534,6 +534,12 @@ func (r *LockRun) structuralEntries() []lockEntry {
 		{"Relations.ExchangeBatch(new target)", func() { w.Relations().ExchangeBatch(&exA, []ecs.ID{rr, d}, nil, rr, e[2]) }},
 		{"Batch.SetRelation(new target)", func() { w.Batch().SetRelation(fr, rr, e[2]) }},
 		{"Relations.Set(new target)", func() { w.Relations().Set(e[3], rr, e[2]) }},
+		// calls that would change nothing still are structural operations: they must be rejected in a locked world
+		{"Relations.Set(same target)", func() { w.Relations().Set(e[3], rr, w.Relations().Get(e[3], rr)) }},
+		{"Batch.SetRelation(same target)", func() { w.Batch().SetRelation(fr, rr, w.Relations().Get(e[3], rr)) }},
+		{"World.Add(no components)", func() { w.Add(e[1]) }},
+		{"Batch.RemoveEntities(no match)", func() { w.Batch().RemoveEntities(ecs.All(a, rr, r.z)) }},
+		{"Batch.Add(no match)", func() { w.Batch().Add(ecs.All(a, rr, r.z), d) }},
 		{"Builder.NewBatch(target)", func() { ecs.NewBuilder(w, rr).WithRelation(rr).NewBatch(2, e[1]) }},
 		{"BuilderWith.NewBatch", func() { ecs.NewBuilderWith(w, val()).NewBatch(2) }},
 		{"Builder.NewBatchQ", func() { q := ecs.NewBuilder(w, a).NewBatchQ(2); q.Close() }},
